@@ -950,8 +950,20 @@ def run(ctx):
     live = Live()
     r = rng.make('c14')
     n_worlds = 900 if ctx.thorough else 60
-    clp = explore(live, r, n_worlds, QUICK, load_corpus())
-    cases = fill(*clp) if build.driver_ok else clp[0]
+    try:
+        clp = explore(live, r, n_worlds, QUICK, load_corpus())
+        cases = fill(*clp) if build.driver_ok else clp[0]
+    except Exception as e:
+        # an exception out of the implementation's own code on a path the harness has no wrapper for is a failure of
+        # the implementation (reported with the traceback), not an infrastructure failure
+        import traceback
+        tb = traceback.extract_tb(e.__traceback__)
+        from vlib import REPO
+        if not (tb and os.path.realpath(tb[-1].filename).startswith(os.path.realpath(REPO))):
+            raise
+        cases = [Case(dict(op='drive', where='%s:%d %s' % (tb[-1].filename, tb[-1].lineno, tb[-1].name)),
+                      oracle_ok=False, kind='drive', tags=('drive',),
+                      oracle_msg='driving the implementation raised %s: %s\n%s' % (type(e).__name__, e, ''.join(traceback.format_tb(e.__traceback__)[-4:])))]
     def search(disagreements, broken):
         import random
         rr = random.Random('%d/c14-search' % ctx.seed)
